@@ -26,13 +26,18 @@ def run_standard(chk, spec, replay=None):
         args = ([spec["harness_prop"]] if hbin == "vharness" else []) + ["--seed", str(chk.seed), "--tier", chk.tier]
         if replay:
             args += ["--replay", replay]
-        rc, out2, recs = chk.run_harness(args, "cases_%s.jsonl" % pid, timeout=spec.get("harness_timeout", 3000), bin=hbin)
+        if spec.get("shared_run") and not replay:
+            rc, out2, recs = chk.run_harness_cached(args, spec["shared_run"], hbin, timeout=spec.get("harness_timeout", 3000))
+        else:
+            rc, out2, recs = chk.run_harness(args, "cases_%s.jsonl" % pid, timeout=spec.get("harness_timeout", 3000), bin=hbin)
         if rc != 0:
             proof_broken.append("harness run failed rc=%d: %s" % (rc, out2[-800:]))
     else:
         proof_broken.append("harness does not build against the current /repo tree: " + hout[-1500:])
-    cases = [r for r in recs if "coq" in r]
+    tag = spec.get("tag")
+    cases = [r for r in recs if "coq" in r and (tag is None or tag in r.get("tags", []))]
     stats = [r for r in recs if "stats" in r]
+    directs = [r["direct"] for r in recs if "direct" in r and (tag is None or r["direct"].get("prop") == tag)]
     # 5. correspondence
     bad, errors = ([], [])
     if ok and cases:
@@ -54,6 +59,16 @@ def run_standard(chk, spec, replay=None):
             chk.known_or_violation(key, robj, key)
         else:
             chk.violation(robj)
+    # verdicts computed on the implementation side (Rust vs Rust comparisons, panics, hangs)
+    dbad = [d for d in directs if not d.get("ok")]
+    for d in dbad[:20]:
+        robj = {"property": pid, "kind": "direct", "what": d.get("what"), "input": d.get("input"),
+                "replay_cmd": "./check %s --replay <this file>" % pid}
+        key = spec["direct_known_key"](d) if "direct_known_key" in spec else None
+        if key:
+            chk.known_or_violation(key, robj, key)
+        else:
+            chk.violation(robj)
     if "post" in spec and hok:
         spec["post"](chk, recs, cases)
     if proof_broken and not chk.violations:
@@ -63,10 +78,16 @@ def run_standard(chk, spec, replay=None):
                        "searched": "all %d generated correspondence cases of this run" % len(cases)},
                       suffix="no-failing-input-found")
     nontriv = {core.input_hash(c) for c in cases if spec["nontrivial"](c)}
+    dkinds = {}
+    for d in directs:
+        k = d.get("what", "?")
+        dkinds.setdefault(k, [0, 0])
+        dkinds[k][0 if d.get("ok") else 1] += 1
     samples = [{"op": c["op"], "input": c["input"]} for c in cases[:: max(1, len(cases) // 5)]][:5]
     chk.assumptions = spec.get("assumptions", [])
     extra = {"input_distribution": stats[0]["stats"] if stats else {},
              "correspondence_cases": len(cases), "correspondence_disagreements": len(real_bad),
-             "traces_validated_against_impl": len(cases)}
+             "traces_validated_against_impl": len(cases),
+             "direct_checks": {k: {"passed": v[0], "failed": v[1]} for k, v in dkinds.items()}}
     extra.update(spec.get("extra", {}))
-    return chk.finish(spec["level"], samples, len(cases), len(nontriv), spec["rule"], spec.get("explanation", ""), extra)
+    return chk.finish(spec["level"], samples, len(cases) + len(directs), len(nontriv), spec["rule"], spec.get("explanation", ""), extra)
